@@ -107,6 +107,13 @@ Proof.
   apply update_reg_at_lkeeps.
 Qed.
 
+(* creating a register (successfully or not) creates no qubit *)
+Theorem held_newreg s n mq j : held (fst (step s (ONewReg n mq))) j = held s j.
+Proof.
+  simpl. destruct (Nat.ltb _ _); auto. unfold op_newreg. destruct (Nat.leb _ _); auto. cbn [fst].
+  apply held_set. reflexivity.
+Qed.
+
 Theorem held_unchanged_unless_ok s o j :
   (forall v, snd (step s o) <> Ok v) -> held (fst (step s o)) j = held s j.
 Proof.
@@ -122,6 +129,11 @@ Proof.
   - destruct inplace; [apply held_meas_inplace|].
     simpl in *. unfold op_meas in *. destruct (find_handle s h) as [[vi q]|]; auto.
     destruct (locate s q) as [[x r]|]; auto. destruct (measure _ _ _ _ _) as [[o n1] t1].
+    exfalso. simpl in Hno. eapply Hno; reflexivity.
+  - apply held_newreg.
+  - simpl in *. destruct (Nat.ltb _ _); auto. unfold op_new_inreg in *.
+    destruct (negb _); auto. destruct (Nat.leb _ _); auto. destruct (find_reg _ _) as [r|]; auto.
+    destruct (Nat.leb _ _); auto.
     exfalso. simpl in Hno. eapply Hno; reflexivity.
 Qed.
 
@@ -157,6 +169,19 @@ Theorem held_new s n v j :
 Proof.
   simpl. destruct (Nat.ltb_spec n (length (nodes s))); [|discriminate].
   unfold op_new. destruct (Nat.leb _ _); [discriminate|]. unfold add_register. destruct (Nat.leb _ _); [discriminate|].
+  intros _. cbn [fst]. unfold held. rewrite nth_node_mk.
+  destruct (Nat.ltb_spec n (length (nodes s))); try lia. rewrite andb_true_r.
+  destruct (Nat.eqb_spec j n) as [->|]; auto. cbn [virt with_virt]. rewrite app_length. simpl. lia.
+Qed.
+
+(* creation inside an existing register adds exactly one held qubit, at the creating node *)
+Theorem held_new_inreg s n ow k v j :
+  snd (step s (ONewInReg n ow k)) = Ok v ->
+  held (fst (step s (ONewInReg n ow k))) j = if Nat.eqb j n then S (held s j) else held s j.
+Proof.
+  simpl. destruct (Nat.ltb_spec n (length (nodes s))); [|discriminate].
+  unfold op_new_inreg. destruct (negb _); [discriminate|]. destruct (Nat.leb _ _); [discriminate|].
+  destruct (find_reg _ _) as [r|]; [|discriminate]. destruct (Nat.leb _ _); [discriminate|].
   intros _. cbn [fst]. unfold held. rewrite nth_node_mk.
   destruct (Nat.ltb_spec n (length (nodes s))); try lia. rewrite andb_true_r.
   destruct (Nat.eqb_spec j n) as [->|]; auto. cbn [virt with_virt]. rewrite app_length. simpl. lia.
